@@ -424,6 +424,15 @@ where
         }
     }
 
+    /// Replaces the tokenizer used for documents and queries from now on.
+    ///
+    /// Postings already in the index keep the terms they were filed under, so
+    /// the new tokenizer has to be compatible with the one that produced them
+    /// (see [`load_all`](Self::load_all)).
+    pub fn set_tokenizer(&mut self, tokenizer: T) {
+        self.tokenizer = tokenizer;
+    }
+
     /// Loads a complete index (metadata and all buckets) in one call.
     ///
     /// This is a convenience wrapper around [`load_metadata`](Self::load_metadata)
